@@ -18,7 +18,7 @@ import (
 // C20 — public-symbol validation sees every symbol a query references.
 
 type c20Case struct {
-	Public map[string]bool `json:"public"` // publicity of every symbol of the store except id
+	Public map[string]bool `json:"public"`           // publicity of every symbol of the store except id
 	Mapped []string        `json:"mapped,omitempty"` // scalar symbols wrapped with MapSymbol after registration: their publicity stays what it was
 	Query  kit.QuerySpec   `json:"query"`
 }
